@@ -27,7 +27,7 @@ PROPS = {
         "level": "exploration",
         "hang_is_violation": True,
         "units": [U("limitl", "TestC12", q(40000), q(400000, 16))],
-        "assumptions": [BUBBLE, RAPID, "timing clauses are asserted only for an always-ready consumer"],
+        "assumptions": [BUBBLE, RAPID, "timing clauses are asserted for an always-ready consumer, and, with all data up-front, for a consumer that pauses a fixed d before every receive with Q*d <= I (bound floor(i/Q)*I + (min(Q,N)+1)*d)"],
     },
     "C13": {
         "level": "exploration",
@@ -100,7 +100,7 @@ PROPS = {
     "C05": {
         "level": "exploration",
         "units": [U("prio", "TestC05", q(8000), q(60000, 16))],
-        "assumptions": [BUBBLE, RAPID, SAMPLED, "saturation = every input buffered with capacity = prefill >= H + releases + 1 (all data sits in the channel: no poll ever finds an input empty)", "share = the configured divider applied to (all priorities sorted high to low, H), as the property defines it"],
+        "assumptions": [BUBBLE, RAPID, SAMPLED, "saturation = every input buffered with capacity = prefill >= H + releases + 1 (all data sits in the channel: no poll ever finds an input empty); or, v1 with an unbuffered output and a consumer that waits for quiescence after every receive, capacity 1..10 with the producer blocked on the full buffer (one read per quiescent interval, the buffer is refilled before the next read)", "replacing the channel of a configured priority by another full channel (v1 AddInput) leaves the configured priorities, hence the shares, unchanged", "share = the configured divider applied to (all priorities sorted high to low, H), as the property defines it"],
     },
     "C07": {
         "level": "exploration",
@@ -139,6 +139,6 @@ PROPS = {
             U("limitl", "TestC20", q(3000), q(20000, 2), race=True),
             U("pure", "TestC20", q(400), q(6000, 2), race=True),
         ],
-        "assumptions": ["Go race detector (happens-before based; reports only races in executed schedules)", RAPID, "free-running scenarios are not pinned by the seed (the script is, the interleaving is not); a reported race is confirmed by re-running its script up to 10 times", "inside bubbles synctest.Wait adds happens-before edges between harness and discipline, which is why the real-time scenarios exist"],
+        "assumptions": ["Go race detector (happens-before based; reports only races in executed schedules)", RAPID, "free-running scenarios are not pinned by the seed (the script is, the interleaving is not); a reported race is confirmed by re-running its script up to 10 times", "inside bubbles synctest.Wait adds happens-before edges between harness and discipline, which is why the real-time scenarios exist", "the pure functions are called concurrently only with arguments no other goroutine touches (sharing a slice the helpers sort would be the caller's race)"],
     },
 }
